@@ -76,7 +76,10 @@ def check_dispatch(rec, events, res, desc):
             rec.violation("dispatch:starts", f"kernel call {j}: starts differ from D[{j}]")
 
 
-def one_analysis(rec, seedt, params):
+def one_analysis(rec, seedt, params, vary_from=None):
+    """vary_from = (desc, data) of the previous analysis of this process: the same data buffer
+    is analysed again with ONE option changed (call history on shared state: window / basis
+    caches, plan caches, anything remembered under an incomplete key)."""
     from speckit.analysis import SpectrumAnalyzer
     rng = gen.rng_for(*seedt)
     cuda = params.get("cuda", False)
@@ -89,9 +92,20 @@ def one_analysis(rec, seedt, params):
         desc["Jdes"] = int(rng.choice([5, 12]))
     desc["kind"] = "analysis"
     desc["seed"] = list(seedt)
-    data = api.build_data(desc, seedt)
+    if vary_from is not None:
+        alt = desc
+        desc = dict(vary_from[0])
+        which = str(rng.choice(["win", "win", "order", "olap", "backend", "sched", "bmin", "Lmin",
+                                "Kdes"]))
+        desc[which] = alt[which]
+        desc.update(kind="analysis", seed=list(seedt), vary_of=vary_from[0]["seed"],
+                    varied=which, band=alt["band"])
+        data = vary_from[1]
+    else:
+        data = api.build_data(desc, seedt)
     want_band = desc["band"] == "pending"
     desc["band"] = None
+    one_analysis.last = (dict(desc), data)
     rec.case(desc, nontrivial=False)
     events = []
     probe = KernelProbe(probe_callback(rec, events)).install()
@@ -253,10 +267,20 @@ def run_shard(params, rec):
         if time.time() - t0 > params["budget_s"]:
             rec.note(f"time budget reached after {i} analyses")
             break
-        one_analysis(rec, [params["seed"], params["shard"], i], params)
+        prev = getattr(one_analysis, "last", None) if (i % 3 == 2 and not params.get("cuda")) else None
+        one_analysis(rec, [params["seed"], params["shard"], i], params, vary_from=prev)
 
 
 def replay(case, rec):
+    if case.get("vary_of"):
+        # reproduce the history: the analysis this one was derived from runs first
+        one_analysis.last = None
+        replay({k: v for k, v in dict(case, seed=case["vary_of"]).items()
+                if k not in ("vary_of", "varied")}, rec)
+        params = {"nmax": 200000 if case.get("N", 0) > 12000 else 12000,
+                  "backends": ["numba", "numpy", "auto"], "cuda": False}
+        one_analysis(rec, case["seed"], params, vary_from=one_analysis.last)
+        return
     seedt = case["seed"]
     cuda = case.get("backend") == "cuda"
     params = {"nmax": 200000 if case.get("N", 0) > 12000 else 12000,
